@@ -18,6 +18,7 @@ layout and its (de)serialisation, Commit / a fresh instance opened at a stored r
 staying readable, the goroutines of `updateParallel`.
 -/
 import Aergo.Lemmas.TrieCanon
+import Aergo.Lemmas.TrieBatch
 
 namespace Aergo.Props.C10
 open Aergo.Trie
@@ -119,6 +120,15 @@ theorem addShortcut_is_sorted_insert (H : Nat) (sk : List Bool) (sv : V) (b : Li
     WF H (addShortcut b sk sv) ∧ ∀ k, applyF (fun _ => none) (addShortcut b sk sv) k = applyF (get (T.leaf sk sv)) b k := by
   rw [addShortcut_eq sk sv b w hne]
   exact ⟨addSc_wf sv w hsk, look_addSc sk sv b w.2⟩
+
+/-- **Storage layer round trip**: the value `serializeBatch` writes for a 4-level batch is read back by
+`parseBatch` as the same batch (a shortcut batch keeps exactly its key and value slots): what a fresh
+instance loads from the store at a committed root is what was committed. (`WF`: 30 slots, present slots
+33 bytes, a shortcut batch holds its pair in slots 1 and 2 — the batches the trie builds; the harness
+feeds every value the real trie stores to both codecs.) -/
+theorem batch_store_roundtrip (b : Aergo.TrieBatch.Batch) (w : Aergo.TrieBatch.WF b) :
+    Aergo.TrieBatch.parse (Aergo.TrieBatch.serialize b) = some (Aergo.TrieBatch.norm b) :=
+  Aergo.TrieBatch.parse_serialize b w
 
 /-! Non-vacuity (tests on concrete values, not proofs of the general claims): a height-3 history
 with an insertion on both sides of a deleted shortcut — the shape that was broken before the
